@@ -99,7 +99,7 @@ def _sharded(jobs, base, var="a", weight=1, spec=None):
         p = dict(base)
         sp = {k: dict(v) for k, v in (spec or {}).items()}
         sp.setdefault(var, {})
-        sp[var] = dict(sp[var], extra=extra)
+        sp[var] = dict(sp[var], extra=(f"({sp[var]['extra']}) and ({extra})" if sp[var].get("extra") else extra))
         p["spec"] = sp
         p["shard"] = name
         jobs.append({"harness": "total", "params": p, "weight": weight, "cpu_cap": 900, "wall_cap": 1500})
